@@ -1127,7 +1127,15 @@ def fancy_setitem(eng, a, items, value):
         raise Unsupported("fancy assignment with symbolic index array")
     old = a.fn
     m = ind.shape[0]
-    targets = [ind.fn(k) for k in range(m)]
+    n0 = a.shape[0]
+    targets = []
+    for k in range(m):
+        t = unwrap(ind.fn(k))
+        if T.is_sym(t):
+            t = T.ite(T.compare("lt", t, 0), T.add(t, n0), t)       # negative entries count from the end
+        elif t < 0:
+            t = T.add(n0, t)
+        targets.append(t)
     if isinstance(value, I.Arr):
         vals = [getitem(eng, value, k) if not is_one(value.shape[0]) else getitem(eng, value, 0) for k in range(m)]
     else:
